@@ -415,7 +415,7 @@ func pname(pid peer.ID) string {
 
 func TestCheck(t *testing.T) {
 	r := vp.New("C06", "model_checking",
-		"every sequence of <= depth operations over the alphabet {per-source content changes of provider P (appear, advance, regress on the other source, disappear, without time) and Q, source failure toggles, Refresh, Refresh cancelled while source 0 / source 1 is being read, Refresh overlapped by a second Refresh issued inside a source call, Get of P / Q / a never-reported provider, List, clock advances of ttl/2 and ttl+1s}, each run on a fresh real ProviderCache with two fake sources inside a synctest bubble (virtual clock), compared after every step with a reference model (freshest record ever handed to the cache per provider, first-unreported time, negative entries, Fetch call counts). states = distinct sequences; transitions = operations executed; traces = sequences executed on the real cache.",
+		"every sequence of <= depth operations over the alphabet {per-source content changes of provider P (appear, advance, regress on the other source, disappear, without time) and Q, source failure toggles, Refresh, Refresh cancelled while source 0 / source 1 is being read, Refresh overlapped by a second Refresh issued inside a source call, Get of P / Q / a never-reported provider, List, clock advances of ttl/2 and ttl+1s}, each run on a fresh real ProviderCache with two fake sources inside a synctest bubble (virtual clock), compared after every step with a reference model (freshest record ever handed to the cache per provider, first-unreported time, negative entries, Fetch call counts); plus a lifecycle layer of macro steps (change what the sources report for one provider, let 0 / ttl/2 / ttl+1s pass, Refresh): every sequence of 6 (quick) / 7 (thorough) macro steps with one source and of 4 / 5 with two sources, which reaches appear - disappear - reappear - expire histories of 15-25 flat operations. states = distinct sequences; transitions = operations executed; traces = sequences executed on the real cache.",
 		"reference model is the oracle (trusted; written from the statement); nothing is asserted right after a refresh that returned an error, only after the next successful one",
 		"expiry is asserted only in histories in which every source responded in every refresh since the provider was last reported",
 		"records are compared by advertisement time, not identity (equal times are not ordered by the statement)",
@@ -484,5 +484,101 @@ func TestCheck(t *testing.T) {
 		}
 	}
 	rec(nil)
+	lifecycle(t, r, thorough)
 	t.Logf("violations: %d", r.Violations())
+}
+
+// lifecycle: the cache learns about its sources only at a refresh, so long
+// appear / disappear / reappear / expire histories are reached with macro
+// steps "change what the sources report for P, let time pass, Refresh" at a
+// depth the flat alphabet cannot afford. One and two sources.
+func lifecycle(t *testing.T, r *vp.Recorder, thorough bool) {
+	type macro struct {
+		name     string
+		s0, s1   int // version to set at source 0 / 1; -1 = leave as is
+		dur      time.Duration
+	}
+	var one, two []macro
+	for _, v := range []struct {
+		n string
+		v int
+	}{{"t1", 2}, {"t2", 3}, {"gone", 0}} {
+		for _, d := range []struct {
+			n string
+			d time.Duration
+		}{{"", 0}, {"+ttl/2", ttl / 2}, {"+ttl+", ttl + time.Second}} {
+			one = append(one, macro{"S0.P=" + v.n + d.n, v.v, -1, d.d})
+		}
+	}
+	for _, a := range []struct {
+		n string
+		v int
+	}{{"S0.P=t1", 2}, {"S0.P=gone", 0}, {"S0.P=same", -1}} {
+		for _, b := range []struct {
+			n string
+			v int
+		}{{"S1.P=t2", 3}, {"S1.P=gone", 0}, {"S1.P=same", -1}} {
+			for _, d := range []struct {
+				n string
+				d time.Duration
+			}{{"", 0}, {"+ttl+", ttl + time.Second}} {
+				if a.v == -1 && b.v == -1 && d.d == 0 {
+					continue
+				}
+				two = append(two, macro{a.n + "," + b.n + d.n, a.v, b.v, d.d})
+			}
+		}
+	}
+	d1, d2 := 6, 4
+	if thorough {
+		d1, d2 = 7, 5
+	}
+	run := func(layer string, kinds []macro, depth int) {
+		var rec func(seq []int)
+		rec = func(seq []int) {
+			if r.OverBudget() {
+				return
+			}
+			if len(seq) == depth {
+				var flat []op
+				var names []string
+				for _, i := range seq {
+					m := kinds[i]
+					names = append(names, m.name)
+					if m.s0 >= 0 {
+						flat = append(flat, op{name: fmt.Sprintf("S0.P=v%d", m.s0), kind: "set", src: 0, pid: pP, ver: m.s0})
+					}
+					if m.s1 >= 0 {
+						flat = append(flat, op{name: fmt.Sprintf("S1.P=v%d", m.s1), kind: "set", src: 1, pid: pP, ver: m.s1})
+					}
+					if m.dur > 0 {
+						flat = append(flat, op{name: "advance(" + m.dur.String() + ")", kind: "advance", dur: m.dur})
+					}
+					flat = append(flat, op{name: "Refresh", kind: "refresh"})
+				}
+				key := "life|" + layer + "|" + strings.Join(names, " ; ")
+				if !r.Mine(key) {
+					return
+				}
+				r.Eval(key, true)
+				r.Trace(1)
+				r.Transition(int64(len(flat)))
+				r.State(key)
+				if v := runSequence(t, flat); v != nil {
+					r.Outcome("violation:" + v.sig)
+					r.Violation(v.sig+":lifecycle", key, fmt.Sprintf("lifecycle [%s]: %s", strings.Join(names, " ; "), v.msg), map[string]any{"steps": names})
+				} else {
+					r.Outcome("lifecycle-agrees")
+					r.Sample(map[string]any{"lifecycle": names})
+				}
+				return
+			}
+			for i := range kinds {
+				rec(append(seq[:len(seq):len(seq)], i))
+			}
+		}
+		rec(nil)
+	}
+	run("one-source", one, d1)
+	run("two-sources", two, d2)
 }
